@@ -8,6 +8,10 @@ use crate::util::hex;
 fn sp(r: &mut Rng) -> String {
     if r.chance(1, 5) {
         "0 0 0 0".to_string()
+    } else if r.chance(1, 6) {
+        // long documents / long lines: many-digit positions
+        let l = *r.pick(&[99usize, 100, 1000, 12345, 100000, 4294967295]);
+        format!("{} {} {} {}", l, *r.pick(&[9usize, 100, 1000, 65536]), l + r.below(1000), *r.pick(&[99usize, 101, 10000, 123456789]))
     } else {
         let l = r.range(1, 30);
         format!("{} {} {} {}", l, r.range(1, 40), l + r.below(3), r.range(0, 60))
